@@ -167,10 +167,28 @@ private:
 
 // Pumps a gateway until the scripted input is used up (or the gateway reports an error).  Returns the flattened Messages handed over.
 struct Pumped {std::vector<std::string> msgs; bool error; uint32 whatOfFirst; unsigned calls;};
+class Collector : public AbstractGatewayMessageReceiver      // flattens every Message at once and lets go of it (its own bookkeeping is not measured)
+{
+public:
+   Collector(Pumped & r) : _r(r) {}
+   virtual void MessageReceivedFromGateway(const MessageRef & msg, void *)
+   {
+      const bool wasOn = g_measure; g_measure = false;
+      if (msg())
+      {
+         Message m(*msg()); (void) m.RemoveName(PR_NAME_PACKET_REMOTE_LOCATION);   // (a slave gateway in packet mode tags the source address)
+         if (_r.msgs.empty()) _r.whatOfFirst = m.what;
+         if (_r.msgs.size() < 100000) _r.msgs.push_back(Flat(m));
+      }
+      g_measure = wasOn;
+   }
+private:
+   Pumped & _r;
+};
 static Pumped Pump(AbstractMessageIOGateway & gw, FeedIO * sio, PktIO * pio)
 {
    Pumped r; r.error = false; r.whatOfFirst = 0; r.calls = 0;
-   QueueGatewayMessageReceiver q;
+   Collector q(r);
    unsigned idle = 0;
    while(r.calls < 200000)
    {
@@ -180,11 +198,6 @@ static Pumped Pump(AbstractMessageIOGateway & gw, FeedIO * sio, PktIO * pio)
       if (gw.HasBytesToOutput()) (void) gw.DoOutput();
       const bool done = sio ? sio->Done() : pio->in.empty();
       if (s.GetByteCount() > 0) idle = 0; else if (done) {if (++idle >= 2) break;} else if (++idle > 20000) {Note("violations", "gateway makes no progress although input is available", sio ? sio->data : std::string()); break;}
-   }
-   for (uint32 i=0; i<q.GetMessages().GetNumItems(); i++)
-   {
-      Message * m = q.GetMessages()[i]();
-      if (m) {(void) m->RemoveName(PR_NAME_PACKET_REMOTE_LOCATION); if (r.msgs.empty()) r.whatOfFirst = m->what; r.msgs.push_back(Flat(*m));}   // (a slave gateway in packet mode tags the source address)
    }
    return r;
 }
@@ -210,7 +223,7 @@ static bool ParseMsg(const Case & c, const std::string & base)
       Exact y2(y); Message z; const status_t r2 = z.UnflattenFromBytes(y2.p, y2.n);
       if (r2.IsError()) Note("violations", std::string("accepted, but its own re-flattening is rejected: ") + r2(), b);
       else if (Flat(z) != y) Note("violations", "accepted, but re-flatten / re-parse is not a fixed point", b);
-      else if ((z == *g_reuse) != (*g_reuse == *g_reuse)) Note("violations", "accepted, but the re-parsed Message compares unequal", b);
+      else {const Message cp(*g_reuse); if ((z == *g_reuse) != (cp == *g_reuse)) Note("violations", "accepted, but the re-parsed Message compares unequal", b);}   // (a Message holding a NaN is not == to its own copy either)
    }
    else
    {
